@@ -85,3 +85,17 @@ Example C18_pack_premises_hold :
   snd (run (Cfg true true) (init_st 0 [9]) [NewPack 0 22; Packs; ClosePack 0; Has 1; Get 1 TAny; Iter TAny; Packs])
   = [ROk; RPacks [9]; ROk; RBool true; ROk; RSet 31; RPacks [9; 22]].
 Proof. vm_compute. repeat split. Qed.
+
+(* writer slots are arbitrary: the theorems above cover any number of object and
+   pack writers open at once, writers that are never closed, and RawObjectWriter
+   calls abandoned by a failing WriteHeader (FailObj).  Instance: two object
+   writers open, a lookup rebuilds the cached list, the first closes while the
+   second is still open (and a third was abandoned): its object is found at once *)
+Example C18_two_open_writers :
+  slot_get 0%nat (ow (fst (run (Cfg true true) (init_st 0 []) [FailObj; NewObj 0 1; NewObj 1 2; Has 5]))) = Some 1 /\
+  snd (run (Cfg true true) (init_st 0 [])
+         [FailObj; NewObj 0 1; NewObj 1 2; Has 5; CloseObj 0; Has 1; Size 1; Get 1 TAny; Iter TAny; Prefix 1 20;
+          NewPack 0 12; NewPack 1 48; Packs; ClosePack 0; Get 2 TAny; Iter TAny; CloseObj 1; Has 2])
+  = [RErr EOther; ROk; ROk; RBool false; ROk; RBool true; ROk; ROk; RSet 2; RNum 1;
+     ROk; ROk; RPacks []; ROk; ROk; RSet 14; ROk; RBool true].
+Proof. vm_compute. split; reflexivity. Qed.
